@@ -25,6 +25,7 @@ class Tagger:
     def __init__(self):
         self.n = 0
         self.nraw = 0
+        self.ntrail = 0
 
     def tag(self):
         self.n += 1
@@ -89,7 +90,10 @@ class Tagger:
     def expr(self, e):
         k = e["k"]
         if k in ("list", "set"):
-            e.setdefault("trail", False)
+            if "trail" not in e:
+                # every third non-empty literal is written with a trailing comma (whatever its length)
+                self.ntrail += 1 if e["elems"] else 0
+                e["trail"] = bool(e["elems"]) and self.ntrail % 3 == 0
             for x in e["elems"]:
                 self.expr(x)
         elif k in ("listc", "setc"):
@@ -164,7 +168,8 @@ def hand_asts():
     deep = A.lst(A.st(A.lst(A.st(A.lst(i(1), s("é中 ; not a comment")), i(2)), s("")), A.call("f", A.call("g", A.call("h", A.lst())))), A.null(), A.true(), A.false())
     deep["trail"] = True
     deep["elems"][0]["trail"] = True
-    exprs = [s("l1\nl2\n\n  l4"), s("l1\nl2"), s("t\tb\n"), deep, i(0), i(4294967295), s("q\"uote \\ back\nnl\ttab\rcr"), A.lst(), A.st(), A.lst(i(1)), A.st(s("x")),
+    exprs = [s("l1\nl2\n\n  l4"), s("l1\nl2"), s("t\tb\n"), deep, i(0), i(4294967295), s("q\"uote \\ back\nnl\ttab\rcr"), A.lst(), A.st(), A.lst(i(1)), A.st(s("x")), dict(A.lst(i(1)), trail=True), dict(A.st(s("x")), trail=True),
+             dict(A.lst(dict(A.lst(c("m")), trail=True), dict(A.st(i(2)), trail=True)), trail=True),
              A.listc(A.call("plus", v("x"), i(1)), "x", A.lst(i(1), i(2))), A.setc(A.svar(v("y"), "a"), "y", A.listc(v("z"), "z", c("xs"))),
              A.svar(A.svar(A.svar(c("m"), "a"), "b"), "c"), A.svar(A.call("f", c("m")), "d"), A.svar(A.lst(c("m")), "weird"),
              A.call("no-args"), A.call("f", A.rcap(0), A.rcap(12), c("m"), v("v"), s("s"), i(7), A.null())]
